@@ -50,7 +50,7 @@ P("C03", "model_checking",
   models=["MC_Pec", "MC_Codec"], gen=["GenAlphabet"], families=["tour", "identity", "vendor_enum", "forge", "lengths", "requests", "responses", "vendor"])
 P("C04", "model_checking",
   "non-trivial = an encoder call with 7-bit source/destination that returned Ok or whose message does not fit; distinct = distinct arguments",
-  models=["MC_Codec", "MC_Link"], gen=["GenAlphabet"], families=["tour", "identity", "vendor_enum", "forge", "lengths", "requests", "responses", "vendor"])
+  models=["MC_Codec", "MC_Link"], gen=["GenAlphabet"], families=["hdr_sweep", "tour", "identity", "vendor_enum", "forge", "lengths", "requests", "responses", "vendor"])
 P("C05", "model_checking",
   "non-trivial = an encoder call that returned Ok; distinct = distinct (context address, arguments)",
   models=["MC_Codec"], gen=["GenAlphabet"], families=["tour", "identity", "vendor_enum", "forge", "hdr_sweep", "requests", "responses", "vendor"])
